@@ -106,6 +106,8 @@ def run(ctx):
         ctx.violation("build", "extracted tools do not build: " + err[:200], {"broken": "extraction"}, found_input=False)
         return
     quick = ctx.tier == "quick"
+    from props import c02 as _c02
+    _c02.proofs(ctx, "C12.v", deps=("Machine/CallEquiv.vo",))   # property theorems: build + Print Assumptions audit
     rng = ctx.rng
     jobs, nstruct, struct_diff, bis = [], 0, 0, []
     skipped_unsafe = 0
